@@ -8,7 +8,7 @@ exported value, to every value after `constant_fold` and to every value after `T
 """
 import json
 
-from vlib import common, evm, progs
+from vlib import common, evm, keccak, progs
 
 PROP = "C18"
 PROFILES = ("rel",)
@@ -71,10 +71,18 @@ def shard(shard_no, nshards, seed, tier, extra):
     n = 420 if tier == "quick" else 20000
     d = common.Driver("rel", shim=False)
     B = evm.boundary_constants()
+    items = sorted(keccak.slot_hash_table().items())[:400]
     for i in range(n):
         r = rng.random()
         pre_limit = None
-        if r < 0.1:
+        if r < 0.06:
+            # leaves that lifting rewrites into trees: literal hashes of small slot numbers
+            if rng.random() < 0.6:
+                code, feats = progs.hash_constants(rng, items)
+            else:
+                code, _info = progs.lookalike(rng, items, with_storage=True, allow_value_side=True)
+                feats = {"lookalike"}
+        elif r < 0.15:
             pre_limit = rng.choice([1, 2, 3, 5, 8, 16, 50, 250])
             code, feats = progs.near_limit_operands(rng, pre_limit)
         elif r < 0.25:
@@ -111,7 +119,8 @@ def run(tier, seed, t0):
         "loops and straight-line code that repeatedly square, add, hash, mask, ADDMOD, EXP or SLOAD a running value "
         "(also through storage and memory), bulk copies followed by hashing, the C03 loop shapes, C07 straight-line "
         "programs and read-mask-write programs; a grown value (or a small constant) fed into every operand position of "
-        "every operand-taking opcode, with MLOADs of whatever the opcode wrote to memory; x value size limit {1,2,3,5,8,16,50,250,1000} x iteration limit 1..12. "
+        "every operand-taking opcode, with MLOADs of whatever the opcode wrote to memory; literal keccak(n) constants "
+        "(leaves that lifting turns into trees) alone, offset, combined, as keys and as values; x value size limit {1,2,3,5,8,16,50,250,1000} x iteration limit 1..12. "
         "distinct = (bytecode, config); non-trivial = some value reaches at least half the limit",
         t0, ["values 'produced by executing an instruction' are those held on stacks, in memory, in storage generations "
              "and in the recorded/logged lists; the StorageWrite wrappers made on export are only size-checked"],
